@@ -19,7 +19,9 @@ def sz (w : World) (fid : Nat) : Nat := (w.files fid).content.length
     existing file and ends inside it -/
 def Chunk.Valid (w : World) : Chunk → Prop
   | .mem d off _ => off ≤ d.length
-  | .file fid off len _ _ => fid < w.nfiles ∧ off ≤ len ∧ len ≤ sz w fid
+  | .file fid off len t fd => fid < w.nfiles ∧ off ≤ len ∧ len ≤ sz w fid ∧
+      -- readable: a descriptor, or a name that lives as long as the chunk does
+      (fd.isOpen = true ∨ t = true ∨ fid < w.nsrc)
 
 def ValidAll (w : World) (cs : List Chunk) : Prop := ∀ c ∈ cs, c.Valid w
 
@@ -35,10 +37,12 @@ def Fresh (w : World) : Prop := ∀ fid, w.nfiles ≤ fid → sz w fid = 0
 structure Grows (w w' : World) : Prop where
   nfiles : w.nfiles ≤ w'.nfiles
   size : ∀ fid, sz w fid ≤ sz w' fid
+  nsrc : w'.nsrc = w.nsrc
 
 /-- no file content changed (descriptors, names, pools, schedules may have) -/
 structure SameFiles (w w' : World) : Prop where
   nfiles : w'.nfiles = w.nfiles
+  nsrc : w'.nsrc = w.nsrc
   content : ∀ fid, (w'.files fid).content = (w.files fid).content
   /-- a file's name count (and the ghost of its owning chunk) stays, or the name goes away -/
   own : ∀ fid, ((w'.files fid).nlink = (w.files fid).nlink ∧ (w'.files fid).tl = (w.files fid).tl) ∨
